@@ -54,7 +54,7 @@ def pvar (ddof : Nat) (c : Col) : Val :=
 /-! ## The generic wiring: `accumulator` and the `accumulate` node -/
 
 /-- An `Aggregation` object: `initial`, `on_new`; `raised r` says that result `r`
-stands for an exception raised inside `on_new` (only `Var` can). -/
+stands for an exception raised inside `on_new` (none of the modelled aggregations does since `Var` was repaired). -/
 structure Aggregation (β σ ρ : Type) where
   initial : β → σ
   onNew : σ → β → σ × ρ
@@ -141,8 +141,9 @@ def MeanOrig : Aggregation Col MeanSt Val where
     (s', some (s'.totals / (s'.counts : Rat)))
 
 /-- `Var` state (x, x2, n).  `pyint` records that the three numbers are still the Python
-ints `0` written by `initial` (121-130): dividing those raises `ZeroDivisionError`, whereas
-numpy scalars give NaN. -/
+ints `0` written by `initial` (a representation detail the correspondence compares).  Dividing
+those used to raise `ZeroDivisionError`; since the repair in /repo (`Var._compute_result` returns
+NaN when the count is the number 0, as `Mean` does) the result is NaN like with numpy scalars. -/
 structure VarSt where
   x : Rat
   x2 : Rat
@@ -150,10 +151,9 @@ structure VarSt where
   pyint : Bool
 deriving DecidableEq, Repr
 
-/-- a float result or the exception raised instead -/
+/-- a float result (the unrepaired `Var` could raise instead; nothing does any more) -/
 inductive Res where
   | ok (v : Val)
-  | zeroDiv
 deriving DecidableEq, Repr
 
 /-- `Var._compute_result` (94-98) in numpy arithmetic:
@@ -173,13 +173,12 @@ def Var (ddof : Nat) : Aggregation Col VarSt Res where
   onNew acc new :=
     let s : VarSt := if new.isEmpty then acc
       else { x := acc.x + psum new, x2 := acc.x2 + psumsq new, n := acc.n + pcount new, pyint := false }
-    (s, if s.pyint then Res.zeroDiv else Res.ok (varResult ddof s.x s.x2 s.n))
-  raised r := r == Res.zeroDiv
+    (s, Res.ok (varResult ddof s.x s.x2 s.n))
 /-- `Var.on_old` (110-118); states reached through `on_new` of a non-empty batch are numpy-typed. -/
 def Var.onOld (ddof : Nat) (acc : VarSt) (old : Col) : VarSt × Res :=
   let s : VarSt := if old.isEmpty then acc
     else { x := acc.x - psum old, x2 := acc.x2 - psumsq old, n := acc.n - pcount old, pyint := false }
-  (s, if s.pyint then Res.zeroDiv else Res.ok (varResult ddof s.x s.x2 s.n))
+  (s, Res.ok (varResult ddof s.x s.x2 s.n))
 
 /-! ## Finite maps (pandas Series indexed by group key) -/
 
